@@ -43,7 +43,7 @@ def reachable(prog, cls, roots):
     return seen
 
 
-def check_function(ctx, f, key, scalar='long double'):
+def check_function(ctx, f, key, scalar='long double', skip=()):
     """Q1..Q5 on one function body of the long double instantiation"""
     where = f.where
     q1, q2, q3, q4, q5 = [], [], [], [], []
@@ -68,6 +68,9 @@ def check_function(ctx, f, key, scalar='long double'):
             for v in n['vars']:
                 if v['t'] in NARROW:
                     q2.append('%s: local `%s` has type %s' % (v['l'], v['n'], v['t']))
+        elif k in ('global', 'member') and str(n.get('t', '')) in NARROW:
+            # a double/float variable outside the function (file-scope constant, static or data member) read by long double code
+            q2.append('%s: reads `%s` of type %s' % (n.get('l'), (n.get('q') or n.get('n') or '?').split('::')[-1], n.get('t')))
         elif k == 'call' and not n.get('inrepo') and n.get('n') in MATHS:
             sig = n.get('sig', '')
             args = sig[sig.find('(') + 1: sig.rfind(')')]
@@ -79,6 +82,8 @@ def check_function(ctx, f, key, scalar='long double'):
                 q4.append('%s: literal %s is not exactly representable in %s; the long double result carries its rounding error' % (n['l'], n['sp'], n['t']))
     for rid, lst, txt in (('C09.Q1', q1, 'no narrowing cast'), ('C09.Q2', q2, 'no narrow storage'), ('C09.Q3', q3, 'long double <cmath> overloads'),
                           ('C09.Q4', q4, 'exact literals'), ('C09.Q5', q5, 'no integer division feeding floating point')):
+        if rid in skip:
+            continue
         ctx.ob(rid, key, not lst, where, '; '.join(lst[:3]) + (' (+%d more)' % (len(lst) - 3) if len(lst) > 3 else ''),
                sample='%s: %s' % (key, txt), nontrivial=(rid != 'C09.Q5'))
 
@@ -110,12 +115,21 @@ def run(ctx, prog):
             key = '%s|%s' % (q.replace('MASA::', '').replace('<long double>', ''), sig.replace('long double', 'S'))
             check_function(ctx, f, key)
     ctx.floor('functions_reachable_from_evaluators<long double>', n, 270)
-    # API templates
+    # API templates (every MASA:: entry point of the long double instantiation) and what they reach: registry methods,
+    # the parameter store (set_var / get_var / ...), helpers
     na = 0
-    for f in prog.functions:
-        if f.q.startswith('MASA::masa_eval_') and f.scalar == scalar:
+    roots = [f for f in prog.functions if f.q.startswith('MASA::') and not f.get('rec') and f.scalar == scalar]
+    for f in roots:
+        if f.q.startswith('MASA::masa_eval_'):
             na += 1
-            check_function(ctx, f, 'api:%s|%s' % (f.n, f.sig.replace('long double', 'S')))
+    for (q, sig), f in reachable(prog, None, roots).items():
+        if (q, sig) in done:
+            continue
+        done.add((q, sig))
+        if f.scalar != scalar and '<long double' not in q:
+            continue        # non-template code shared by both precisions (string helpers, masa_exit)
+        # literals of the API layer are sentinels and markers (-1.33, -12345.67, -20), not operands of a formula: Q4 is not applied
+        check_function(ctx, f, 'api:%s|%s' % (q.replace('MASA::', '').replace('<long double>', ''), sig.replace('long double', 'S')), skip=('C09.Q4',))
     ctx.floor('api_templates<long double>', na, 117)
     # Q6
     consts = [(q, v) for q, v in prog.vars.items() if q.split('::')[-1] in ('pi', 'PI', 'twopi') and 'long double' in q]
